@@ -9,6 +9,7 @@ import SF.Ops.Cbor
 import SF.Ops.Ubjson
 import SF.Ops.Json
 import SF.Ops.Unfold
+import SF.Ops.Fold
 import SF.Gotype.Symbols
 namespace SF.Ops
 open SF
@@ -295,6 +296,10 @@ def runLine (op : String) (impl : String) : Result :=
   | "xcode" :: args => opXcode args impl
   | "reuse-enc" :: args => opReuseEnc args impl
   | "reuse-parse" :: args => opReuseParse args impl
+  | "fold" :: args => opFold args impl
+  | "fold-seq" :: args => opFoldSeq args impl
+  | "typeinfo" :: args => opTypeInfo args impl
+  | "goval" :: args => opGoVal args impl
   | "unf" :: args => opUnf args impl
   | "unf-reuse" :: args => opUnfReuse args impl
   | "unf-type" :: args => opUnfType args impl
